@@ -195,6 +195,7 @@ func checks() map[string]*Check {
 		Runs: []RunSpec{
 			{Scen: "race.api", Params: "snapshots=1,opcap=100000", Quick: 10, Thorough: 200, Race: true, Par: 8},
 			{Scen: "race.grpc", Params: "", Quick: 4, Thorough: 80, Race: true, Par: 8},
+			{Scen: "race.stop", Params: "snapshots=1,opcap=100000", Quick: 8, Thorough: 160, Race: true, Par: 8},
 			{Scen: "w1", Params: "snapshots=1,crash=1,reads=1,leasereads=1", Quick: 8, Thorough: 200, Race: true, Par: 8},
 			{Scen: "w2.votes", Params: "", Quick: 4, Thorough: 80, Race: true, Par: 8},
 			{Scen: "w2.bounce", Params: "", Quick: 4, Thorough: 80, Race: true, Par: 8},
@@ -203,7 +204,7 @@ func checks() map[string]*Check {
 			return cnt(r, "race.runs") > 0 && (cnt(r, "msg.send") > 100 || r.Scen == "race.grpc")
 		},
 		Rule:   "the harness is built with -race; runs are real-time clusters on the simulated network (deep-copying) and on the bundled gRPC transport, with many goroutines calling every public method (submissions of all types, Status, Configuration, AddServer/RemoveServer, Bootstrap on a running node, Stop/Restart on the same object, crash+restart) across leader changes, snapshots (slow state machine) and shutdowns. Race reports are read from the detector's log files; a report whose two accesses both lie in the library is a violation, de-duplicated by the pair of innermost library functions",
-		Assume: []string{"the race detector only reports races on interleavings that happened; a clean run is not race freedom", "reports with a harness-only stack on one side are harness errors and are listed separately"}})
+		Assume: []string{"the race detector only reports races on interleavings that happened; a clean run is not race freedom", "a report counts when at least one of the two accesses is performed by library code (runtime, standard-library and third-party frames are skipped from the top); reports in which both accesses are performed by harness code - also when called from the library, e.g. handler registration on the harness's Transport - are harness errors and are listed separately"}})
 
 	add(&Check{ID: "C18", Level: "exploration", Props: []string{"C18"},
 		Runs: []RunSpec{
